@@ -203,8 +203,18 @@ def opt_work(part, n):
 
         def rec(primitive_op, *preds):
             out = real_fm(primitive_op, *preds)
+            from cubed.utils import chunk_memory
+            # what the predecessors need when run one after the other with their outputs kept (computed here, independently
+            # of cubed's modeller): the statement of Coq's fused_op_not_under_reported
+            cur = held_peak = 0
+            for p in preds:
+                if p is None:
+                    continue
+                cur += int(p.projected_mem)
+                held_peak = max(held_peak, cur)
+                cur -= int(p.projected_mem) - int(chunk_memory(p.target_array))
             calls.append((int(primitive_op.projected_mem), [int(p.projected_mem) for p in preds if p is not None], int(out.projected_mem),
-                          int(primitive_op.allowed_mem)))
+                          int(primitive_op.allowed_mem), held_peak))
             return out
 
         opt_mod.fuse_multiple = rec
@@ -217,9 +227,12 @@ def opt_work(part, n):
             opt_mod.fuse_multiple = real_fm
         part.evaluations += 1
         desc = {"prog": prog, "setting": st}
-        for opp, preds, fused, allowed in calls:
+        for opp, preds, fused, allowed, held_peak in calls:
             if fused < opp or any(fused < p for p in preds):
                 part.fail("fused-op-under-reports", f"fused op reports {fused} bytes but replaces ops projected at {[opp] + preds}", desc)
+            elif fused < held_peak:
+                part.fail("fused-op-under-reports", f"fused op reports {fused} bytes but running its predecessors (projected {preds}) one after the other with "
+                                                    f"their outputs kept needs {held_peak}", desc)
             if not st["af"] and fused > allowed and opp <= allowed and all(p <= allowed for p in preds):
                 part.fail("default-fusion-exceeds-budget", f"fused op needs {fused} > allowed {allowed} although every replaced op fits", desc)
         if calls:
